@@ -857,11 +857,23 @@ func (ex *Exec) applyContract(p *Path, c *Contract, fn *types.Func, recv *Value,
 			ex.havocMutableHeap(p)
 			continue
 		}
+		field := ""
+		if i := strings.Index(m, "."); i >= 0 {
+			m, field = m[:i], m[i+1:]
+		}
 		mv, ok := p.names[m]
 		if !ok {
 			ex.unsupp(pos, "contract %s: modifies %s: unknown name", c.Key, m)
 		}
-		ex.havocObject(p, mv, pos)
+		if field != "" {
+			ex.havocField(p, mv, field, pos)
+		} else {
+			ex.havocObject(p, mv, pos)
+		}
+	}
+	// the callee may allocate
+	if !c.Pure && ex.quantFacts == nil {
+		ex.advanceClock(p)
 	}
 	// results
 	var results []Value
@@ -882,6 +894,9 @@ func (ex *Exec) applyContract(p *Path, c *Contract, fn *types.Func, recv *Value,
 			v = Value{ex.c.Fresh("r:"+fn.Name(), ex.c.SortOf(rt)), rt}
 		}
 		ex.assumeFact(p, ex.c.typeInvariant(v))
+		if ex.c.SortOf(rt) == "Ref" && !c.Pure {
+			ex.bornBefore(p, v.T)
+		}
 		// freshly allocated result objects
 		if ptr, ok := rt.Underlying().(*types.Pointer); ok && !c.Existing {
 			if named, ok := types.Unalias(ptr.Elem()).(*types.Named); ok {
@@ -958,4 +973,31 @@ func (ex *Exec) writesThroughParams(fi *FuncInfo) bool {
 		return true
 	})
 	return found
+}
+
+// havocField forgets one field of the object a pointer value refers to.
+func (ex *Exec) havocField(p *Path, v Value, field string, pos token.Pos) {
+	ptr, ok := v.Ty.Underlying().(*types.Pointer)
+	if !ok {
+		ex.unsupp(pos, "modifies on non-pointer %s", v.Ty)
+	}
+	named, ok := types.Unalias(ptr.Elem()).(*types.Named)
+	if !ok {
+		ex.unsupp(pos, "modifies field of unnamed type")
+	}
+	st, ok := named.Underlying().(*types.Struct)
+	if !ok {
+		ex.unsupp(pos, "modifies field of non-struct")
+	}
+	for i := 0; i < st.NumFields(); i++ {
+		f := st.Field(i)
+		if f.Name() != field {
+			continue
+		}
+		fv := ex.c.Fresh("hv:"+f.Name(), ex.c.SortOf(f.Type()))
+		ex.heapWrite(p, ex.heapKey(named, f.Name()), f.Type(), v.T, fv)
+		ex.assumeFact(p, ex.c.typeInvariant(Value{fv, f.Type()}))
+		return
+	}
+	ex.unsupp(pos, "modifies: no field %s", field)
 }
